@@ -29,28 +29,47 @@ def do_replay(prop, path, raw):
     with open(path) as f:
         record = json.load(f)
     mod = _module(prop)
-    if record.get('subcheck') == 'import':
-        try:
-            mod.imports()
-            got = []
-        except core.PhylibImportError as e:
-            sig, rec = _import_violation(prop, e)
-            got = [rec]
-    else:
-        try:
-            if record.get('subcheck') == 'uncaught' and 'case' in record and hasattr(mod, 'run_case_any'):
-                got = mod.run_case_any(record)
-            else:
+    got, note = [], ''
+    ph = record.get('process_history')
+    if ph and ph.get('cases') and record.get('subcheck') != 'import':
+        # faithful reproduction first: the cases the worker process had run just before, then the
+        # case itself (state kept by the code under test between calls is reproduced as well)
+        modname, fname = ph['fn'].split(':')
+        fn = getattr(importlib.import_module(modname), fname)
+        mod.imports()
+        acc = core.Acc()
+        for c in ph['cases'] + [record.get('case')]:
+            try:
+                fn(c, acc, 0)
+            except core.PhylibImportError:
+                raise
+            except Exception as e:
+                core._uncaught(fn, e, acc, 0, case=c, prop=prop)
+        got = [dict(v['record'], signature=s) for s, v in acc.violations.items()]
+        note = ' (replayed after the %d cases the process had run before it)' % len(ph['cases'])
+    if not [r for r in got if r['signature'] == record['signature']]:
+        note = ''
+        if record.get('subcheck') == 'import':
+            try:
+                mod.imports()
+                got = []
+            except core.PhylibImportError as e:
+                sig, rec = _import_violation(prop, e)
+                got = [rec]
+        else:
+            try:
                 got = mod.replay(record)
-        except core.PhylibImportError:
-            raise
-        except Exception as e:
-            # the replayed case crashes: same classification as in the explorer
-            acc = core.Acc()
-            core._uncaught(mod.replay, e, acc, 0, case=record.get('case'), trace=record.get('trace'),
-                           prop=prop)
-            got = [dict(v['record'], signature=s) for s, v in acc.violations.items()]
+            except core.PhylibImportError:
+                raise
+            except Exception as e:
+                # the replayed case crashes: same classification as in the explorer
+                acc = core.Acc()
+                core._uncaught(mod.replay, e, acc, 0, case=record.get('case'), trace=record.get('trace'),
+                               prop=prop)
+                got = [dict(v['record'], signature=s) for s, v in acc.violations.items()]
     match = [r for r in got if r['signature'] == record['signature']]
+    if match and note:
+        print(' ' + note)
     print('replay %s: signature %s' % (path, record['signature']))
     print('  expected: %s' % json.dumps(record.get('expected'))[:600])
     print('  recorded: %s' % json.dumps(record.get('observed'))[:600])
